@@ -306,7 +306,7 @@ fn commutation(rep: &mut Reporter) -> (u64, Vec<String>) {
     (n, non_commuting)
 }
 
-pub fn run(tier: Tier, _replay: Option<String>) -> i32 {
+pub fn run(tier: Tier, _replay: Option<String>, part: Option<usize>) -> i32 {
     let mut rep = Reporter::new("C05", tier, "model_checking");
     let bound = if tier.is_thorough() { 2 } else { 1 };
     let mut total_exec = 0u64;
@@ -341,16 +341,31 @@ pub fn run(tier: Tier, _replay: Option<String>) -> i32 {
         let (_, bytes) = streams::multi_link(2, 2, 0, true, false);
         scenarios.push(("AllIts with --filter-link 0 and an (ignored) -o file, 2 links x 2 HBFs, E10+E11 on every RDH, batch 2".into(), Scn { mode: Mode::AllItsIgnoredOutput(0), mute: false, max_errors: 0, signal: false, cap: 2, input: Arc::new(bytes), scratch: scratch(), toml: false }));
     }
-    for (label, scn) in &scenarios {
-        let cap = if tier.is_thorough() { 400_000 } else { 6_000 };
+    let cap = if tier.is_thorough() { 400_000 } else { 6_000 };
+    if let Some(k) = part {
+        // worker process: one scenario
+        let (label, scn) = &scenarios[k];
         let so = explore_scenario(&mut rep, scn, bound, cap, label);
-        total_exec += so.executions;
-        total_steps += so.steps;
-        abstract_states += so.abstract_states;
-        arrival_orders += so.distinct_arrival_orders;
-        scen_json.push(json!({"scenario": label, "executions": so.executions, "steps": so.steps, "abstract_states": so.abstract_states, "distinct_outputs": so.distinct_outputs, "distinct_arrival_orders": so.distinct_arrival_orders, "deviation_bound": bound, "capped": so.capped}));
-        if so.distinct_arrival_orders < 2 {
-            rep.machinery_error(format!("{label}: only one arrival order was produced (vacuous exploration)"));
+        crate::parts::write_part(&rep.export_part(json!({"scenario": label, "executions": so.executions, "steps": so.steps, "abstract_states": so.abstract_states, "distinct_outputs": so.distinct_outputs, "distinct_arrival_orders": so.distinct_arrival_orders, "deviation_bound": bound, "capped": so.capped})));
+        let _ = std::fs::remove_dir_all(scratch());
+        return 0;
+    }
+    // the scenarios are explored by worker processes (the scheduler engine runs one controlled execution per process)
+    for (k, r) in crate::parts::run_parts("C05", tier, scenarios.len()).into_iter().enumerate() {
+        let label = &scenarios[k].0;
+        match r {
+            Err(e) => rep.machinery_error(format!("{label}: {e}")),
+            Ok(v) => {
+                let so = rep.import_part(&v);
+                total_exec += so["executions"].as_u64().unwrap_or(0);
+                total_steps += so["steps"].as_u64().unwrap_or(0);
+                abstract_states += so["abstract_states"].as_u64().unwrap_or(0) as usize;
+                arrival_orders += so["distinct_arrival_orders"].as_u64().unwrap_or(0) as usize;
+                if so["distinct_arrival_orders"].as_u64().unwrap_or(0) < 2 {
+                    rep.machinery_error(format!("{label}: only one arrival order was produced (vacuous exploration)"));
+                }
+                scen_json.push(so);
+            }
         }
     }
     // (b)
